@@ -316,6 +316,9 @@ func printDescribe() {
 	sort.Strings(ids)
 	for _, id := range ids {
 		p := ps[id]
+		if id == "ALL" {
+			continue
+		}
 		out = append(out, d{p.ID, p.Technique, p.Decides, p.NotDecided, p.Assumes, p.RuleIDs})
 	}
 	b, _ := json.MarshalIndent(map[string]interface{}{"properties": out, "not_applicable": notApplicable()}, "", " ")
